@@ -419,3 +419,171 @@ func intersect(a, b []Fact) []Fact {
 
 // Intersect is the exported intersection of fact lists by atom.
 func Intersect(a, b []Fact) []Fact { return intersect(a, b) }
+
+// ---- correlated-branch refinement ------------------------------------------------------------
+
+// relSet encodes a comparison between an ordered operand pair as a subset of {lt, eq, gt}.
+const (
+	relLT = 1
+	relEQ = 2
+	relGT = 4
+)
+
+// condRel decomposes (cond, pol) into an operand pair and the relation set it asserts; for a
+// plain boolean value v it returns (v, nil, eq-set for true / lt|gt-set for false).
+func condRel(cond ssa.Value, pol bool) (x, y ssa.Value, rel int, ok bool) {
+	for {
+		u, isU := cond.(*ssa.UnOp)
+		if isU && u.Op == token.NOT {
+			cond, pol = u.X, !pol
+			continue
+		}
+		break
+	}
+	if b, isB := cond.(*ssa.BinOp); isB {
+		r := 0
+		switch b.Op {
+		case token.EQL:
+			r = relEQ
+		case token.NEQ:
+			r = relLT | relGT
+		case token.LSS:
+			r = relLT
+		case token.LEQ:
+			r = relLT | relEQ
+		case token.GTR:
+			r = relGT
+		case token.GEQ:
+			r = relGT | relEQ
+		default:
+			return nil, nil, 0, false
+		}
+		if !pol {
+			r = (relLT | relEQ | relGT) &^ r
+		}
+		return b.X, b.Y, r, true
+	}
+	// boolean value: treat as (v == true)
+	r := relEQ
+	if !pol {
+		r = relLT | relGT
+	}
+	return cond, nil, r, true
+}
+
+func swapRel(r int) int {
+	s := r & relEQ
+	if r&relLT != 0 {
+		s |= relGT
+	}
+	if r&relGT != 0 {
+		s |= relLT
+	}
+	return s
+}
+
+func sameConst(a, b ssa.Value) bool {
+	ca, ok1 := a.(*ssa.Const)
+	cb, ok2 := b.(*ssa.Const)
+	if !ok1 || !ok2 {
+		return false
+	}
+	if ca.Value == nil || cb.Value == nil {
+		return ca.Value == nil && cb.Value == nil && types.Identical(ca.Type(), cb.Type())
+	}
+	return ca.Value.ExactString() == cb.Value.ExactString()
+}
+
+func sameVal(a, b ssa.Value) bool {
+	if a == b {
+		return true
+	}
+	if a == nil || b == nil {
+		return false
+	}
+	return sameConst(a, b)
+}
+
+// definedAbove reports whether v is stable below anchor: a constant, parameter, free variable,
+// global address, or an instruction whose block dominates the anchor (or is the anchor).
+func definedAbove(v ssa.Value, anchor *ssa.BasicBlock) bool {
+	switch x := v.(type) {
+	case nil:
+		return true
+	case *ssa.Const, *ssa.Parameter, *ssa.FreeVar, *ssa.Global, *ssa.Function, *ssa.Builtin:
+		return true
+	case ssa.Instruction:
+		b := x.Block()
+		return b == anchor || b.Dominates(anchor)
+	}
+	return false
+}
+
+// AtRefined computes must-hold facts at instr like At, and additionally prunes CFG edges that
+// contradict an already established fact over the very same SSA operand values (correlated
+// branches such as `a == nil && b == nil` followed later by `b != nil`). The pruning is done
+// per anchor block A that dominates the sink: only paths from the last execution of A to the
+// sink are considered (in-edges of A are cut), and only conditions whose operands are defined
+// at or above A take part, so the operand values are the same dynamic values on the whole
+// suffix. The union over all anchors is returned.
+func AtRefined(instr ssa.Instruction, base Cuts) []Fact {
+	sink := instr.Block()
+	fn := sink.Parent()
+	all := At(instr, base)
+	for a := sink; a != nil; a = a.Idom() {
+		cuts := base.with()
+		for _, p := range a.Preds {
+			for k, s := range p.Succs {
+				if s == a {
+					cuts[Edge{p.Index, k}] = true
+				}
+			}
+		}
+		var fs []Fact
+		for iter := 0; iter < 8; iter++ {
+			fs = Between(a, sink, cuts)
+			changed := false
+			for _, b := range fn.Blocks {
+				iff, ok := lastIf(b)
+				if !ok || len(b.Succs) != 2 || b.Succs[0] == b.Succs[1] {
+					continue
+				}
+				for k := 0; k < 2; k++ {
+					e := Edge{b.Index, k}
+					if cuts[e] {
+						continue
+					}
+					ex, ey, er, ok := condRel(iff.Cond, k == 0)
+					if !ok || !definedAbove(ex, a) || !definedAbove(ey, a) {
+						continue
+					}
+					for _, f := range fs {
+						fx, fy, fr, ok := condRel(f.Cond, f.Pol)
+						if !ok {
+							continue
+						}
+						contra := false
+						if sameVal(ex, fx) && (ey == nil && fy == nil || sameVal(ey, fy)) {
+							contra = er&fr == 0
+						} else if ey != nil && fy != nil && sameVal(ex, fy) && sameVal(ey, fx) {
+							contra = er&swapRel(fr) == 0
+						}
+						if contra {
+							cuts[e] = true
+							changed = true
+							break
+						}
+					}
+				}
+			}
+			if !changed {
+				break
+			}
+		}
+		all = append(all, fs...)
+		if a == fn.Blocks[0] {
+			break
+		}
+	}
+	return dedup(all)
+}
